@@ -1,6 +1,6 @@
 package main
 
-// seq {"name","dir","func","calls":[callee names],"assigns":[substrings]}
+// effseq {"name","dir","func","calls":[callee names],"assigns":[substrings]}
 //   → def <name> : List String
 // The ordered (source order, pre-order) events of one function body: "call:<callee>" for every call
 // whose callee name is tracked, "assign:<normalised text>" for every assignment / inc-dec statement
@@ -15,9 +15,9 @@ import (
 	"strings"
 )
 
-func init() { register("seq", kindSeq) }
+func init() { register("effseq", kindEffSeq) }
 
-func kindSeq(c *Ctx, it Item) (string, error) {
+func kindEffSeq(c *Ctx, it Item) (string, error) {
 	p, fd, err := c.FindFunc(it.Str("dir"), it.Str("func"))
 	if err != nil {
 		return "", err
